@@ -199,9 +199,11 @@ def wstep (s : QState) (c : Clock) : Option QState :=
     | [] => some { s with wpc := .shutFlush }
     | e :: t => some { s with ring := t, wpc := .shutHolding e n }
   | .shutHolding e n =>
-    if (n + 1) % 32 = 0 ∧ c.deadlineHit = true then
-      some { s with log := s.log ++ consumeObs s c e, wpc := .shutFlush, shutHit := true }
-    else some { s with log := s.log ++ consumeObs s c e, wpc := .shutDrain (n + 1) }
+    let hit := decide ((n + 1) % 32 = 0) && c.deadlineHit
+    some { s with
+      log := s.log ++ consumeObs s c e,
+      wpc := if hit then .shutFlush else .shutDrain (n + 1),
+      shutHit := s.shutHit || hit }
   | .shutFlush =>
     some { s with
       log := s.log ++ [.flush, .closed] ++ (s.waiting ++ s.sigs).map (Obs.completed · false),
